@@ -633,7 +633,8 @@ def set_type_attr_cached(
         # If *NO* memoized type attribute cache has been monkey-patched into
         # this pure-Python __sizeof__() dunder method yet, do so.
         if type_to_attr_name_to_value is None:
-            type_to_attr_name_to_value = cls_sizeof._TYPE_ATTR_CACHE_NAME = {}  # type: ignore[attr-defined]
+            type_to_attr_name_to_value = {}
+            setattr(cls_sizeof, _TYPE_ATTR_CACHE_NAME, type_to_attr_name_to_value)
         # Else, a memoized type attribute cache has already been monkey-patched
         # into this pure-Python __sizeof__() dunder method.
         #
